@@ -174,6 +174,11 @@ def _case(seed):
         out = {'case': c, 'builds': {}, 'diffs': [], 'compared': 0}
         for parser in ('earley', 'lalr'):
             a, b = res[('import', parser)], res[('inline', parser)]
+            if parser == 'lalr' and c['features'].get('diamond') and not isinstance(a, tuple) and not isinstance(b, tuple):
+                # the two copies of the module's terminals have one pattern; which of them the contextual lexer prefers depends on their *names*
+                # (b__m__MA cannot be written in a grammar file), so only construction is compared for LALR here; Earley compares language and trees
+                out['builds'][parser] = ['ok', 'ok']
+                continue
             out['builds'][parser] = ['err' if isinstance(a, tuple) else 'ok', 'err' if isinstance(b, tuple) else 'ok']
             if isinstance(a, tuple) or isinstance(b, tuple):
                 if isinstance(a, tuple) != isinstance(b, tuple) and 'TO' not in (a[0] if isinstance(a, tuple) else '', b[0] if isinstance(b, tuple) else ''):
